@@ -2,11 +2,434 @@
   Proofs/C12Search.lean — helper lemmas for Props/C12_Search.lean (search primitives, reverse chunk scan).
 -/
 import BitstringModel.Model.C12
-import BitstringModel.Proofs.C12
 import Mathlib.Tactic.Ring
 import Mathlib.Tactic.Linarith
 import Mathlib.Data.List.Basic
 namespace BM.C12
 open BM
+
+/-! ### search primitive -/
+
+theorem isPrefixOf_eq_take_s (t l : Bits) : t.isPrefixOf l = (l.take t.length == t) := by
+  rw [Bool.eq_iff_iff, List.isPrefixOf_iff_prefix, List.prefix_iff_eq_take, beq_iff_eq]
+  exact eq_comm
+
+theorem matchAt_iff_s (l t : Bits) (p : Nat) : matchAt l t p = true ↔ (l.drop p).take t.length = t := by
+  simp [matchAt]
+
+theorem mem_searchAux_s (t : Bits) (ht : t ≠ []) (e : Nat) (l : Bits) :
+    ∀ (rest : Bits) (p0 : Nat), rest = l.drop p0 →
+      ∀ p, p ∈ searchAux t e rest p0 ↔ p0 ≤ p ∧ p + t.length ≤ e ∧ matchAt l t p = true := by
+  intro rest
+  induction rest with
+  | nil =>
+    intro p0 h p
+    have hlen : l.length ≤ p0 := by
+      have := congrArg List.length h
+      simp at this; omega
+    have ht' : t.isEmpty = false := by cases t <;> simp_all
+    simp only [searchAux, ht']
+    simp only [Bool.false_eq_true, false_and, if_false, List.not_mem_nil, false_iff, matchAt_iff_s]
+    rintro ⟨h1, h2, h3⟩
+    have : l.drop p = [] := List.drop_eq_nil_of_le (by omega)
+    rw [this] at h3
+    simp at h3
+    exact ht h3
+  | cons x xs ih =>
+    intro p0 h p
+    have hxs : xs = l.drop (p0 + 1) := by
+      rw [← List.drop_drop, ← h]; rfl
+    simp only [searchAux, List.mem_append, ih (p0 + 1) hxs p]
+    rw [h, isPrefixOf_eq_take_s]
+    constructor
+    · rintro (h1 | h1)
+      · split at h1
+        · rename_i hc
+          simp only [List.mem_singleton] at h1
+          subst h1
+          exact ⟨le_refl _, hc.1, hc.2⟩
+        · simp at h1
+      · exact ⟨by omega, h1.2⟩
+    · rintro ⟨h1, h2, h3⟩
+      by_cases hp : p = p0
+      · subst hp
+        left
+        rw [if_pos ⟨h2, h3⟩]; simp
+      · right; exact ⟨by omega, h2, h3⟩
+
+theorem searchAux_ge_s (t : Bits) (e : Nat) : ∀ (rest : Bits) (p0 p : Nat), p ∈ searchAux t e rest p0 → p0 ≤ p := by
+  intro rest
+  induction rest with
+  | nil => intro p0 p h; simp only [searchAux] at h; split at h <;> simp_all
+  | cons x xs ih =>
+    intro p0 p h
+    simp only [searchAux, List.mem_append] at h
+    rcases h with h | h
+    · split at h <;> simp_all
+    · have := ih _ _ h; omega
+
+theorem searchAux_sorted_s (t : Bits) (e : Nat) : ∀ (rest : Bits) (p0 : Nat), (searchAux t e rest p0).Pairwise (· < ·) := by
+  intro rest
+  induction rest with
+  | nil => intro p0; simp only [searchAux]; split <;> simp
+  | cons x xs ih =>
+    intro p0
+    simp only [searchAux]
+    rw [List.pairwise_append]
+    refine ⟨by split <;> simp, ih _, ?_⟩
+    intro a ha b hb
+    have := searchAux_ge_s _ _ _ _ _ hb
+    split at ha <;> simp_all
+    omega
+
+theorem mem_search_iff_s (l t : Bits) (a b p : Nat) (ht : t ≠ []) :
+    p ∈ search l t a b ↔ a ≤ p ∧ p + t.length ≤ b ∧ matchAt l t p = true :=
+  mem_searchAux_s t ht b l _ a rfl p
+
+theorem search_sorted_s (l t : Bits) (a b : Nat) : (search l t a b).Pairwise (· < ·) :=
+  searchAux_sorted_s _ _ _ _
+
+theorem matchAt_reverse_s (l t : Bits) (p : Nat) (h : p + t.length ≤ l.length) :
+    matchAt l.reverse t.reverse (l.length - p - t.length) = matchAt l t p := by
+  rw [Bool.eq_iff_iff, matchAt_iff_s, matchAt_iff_s]
+  rw [List.length_reverse, List.drop_reverse, List.take_reverse, List.reverse_inj]
+  rw [List.length_take, List.drop_take]
+  have e1 : l.length - (l.length - p - t.length) = p + t.length := by omega
+  have e2 : min (p + t.length) l.length - t.length = p := by omega
+  have e3 : p + t.length - p = t.length := by omega
+  rw [e1, e2, e3]
+
+theorem eq_of_sorted_of_mem_iff_s {xs ys : List Nat} (hx : xs.Pairwise (· < ·)) (hy : ys.Pairwise (· < ·))
+    (h : ∀ p, p ∈ xs ↔ p ∈ ys) : xs = ys := by
+  have hxn : xs.Nodup := hx.imp (fun h => Nat.ne_of_lt h)
+  have hyn : ys.Nodup := hy.imp (fun h => Nat.ne_of_lt h)
+  have hp : xs.Perm ys := (List.perm_ext_iff_of_nodup hxn hyn).2 h
+  exact List.Perm.eq_of_pairwise (fun a b _ _ h1 h2 => absurd h1 (Nat.lt_asymm h2)) hx hy hp
+
+theorem search_reverse_s (l t : Bits) (a b : Nat) (hab : a ≤ b) (hb : b ≤ l.length) (ht : t ≠ []) :
+    search l.reverse t.reverse a b
+      = ((search l t (l.length - b) (l.length - a)).map fun p => l.length - p - t.length).reverse := by
+  have htr : t.reverse ≠ [] := by simpa using ht
+  apply eq_of_sorted_of_mem_iff_s (search_sorted_s _ _ _ _)
+  · rw [List.pairwise_reverse, List.pairwise_map]
+    refine (search_sorted_s l t (l.length - b) (l.length - a)).imp_of_mem ?_
+    intro x y hx hy hxy
+    rw [mem_search_iff_s _ _ _ _ _ ht] at hx hy
+    omega
+  · intro q
+    rw [mem_search_iff_s _ _ _ _ _ htr, List.mem_reverse, List.mem_map, List.length_reverse]
+    constructor
+    · rintro ⟨h1, h2, h3⟩
+      refine ⟨l.length - q - t.length, ?_, by omega⟩
+      rw [mem_search_iff_s _ _ _ _ _ ht]
+      refine ⟨by omega, by omega, ?_⟩
+      rw [← matchAt_reverse_s l t _ (by omega)]
+      rw [← h3]; congr 1; omega
+    · rintro ⟨p, hp, rfl⟩
+      rw [mem_search_iff_s _ _ _ _ _ ht] at hp
+      refine ⟨by omega, by omega, ?_⟩
+      rw [matchAt_reverse_s l t p (by omega)]
+      exact hp.2.2
+
+theorem msb0Window_eq_s (n a b : Nat) (hab : a ≤ b) (hb : b ≤ n) :
+    msb0Window n a b = .ok (n - b, n - a) := by
+  have ha0 : ¬ ((a : Int) < 0) := by omega
+  have hb0 : ¬ ((b : Int) < 0) := by omega
+  simp only [msb0Window, offsetSliceLsb0, indices, Py.sliceIndices, validateSlice]
+  simp only [ha0, hb0, if_false, Int.ediv_one, Int.mul_one]
+  have h10 : ¬ ((1:Int) < 0) := by omega
+  simp only [h10, if_false]
+  have e1 : min (a:Int) n = a := by omega
+  have e2 : min (b:Int) n = b := by omega
+  simp only [e1, e2]
+  have e3 : ¬ ((n:Int) - (a + (b - 1 - a)) - 1 < 0) := by omega
+  have e4 : ¬ ((n:Int) - a < 0) := by omega
+  simp only [e3, e4, if_false]
+  rw [if_pos (by omega)]
+  congr 2 <;> omega
+
+
+theorem validateSlice_bounds_s {n : Nat} {start stop : Option Int} {a b : Nat}
+    (h : validateSlice n start stop = .ok (a, b)) : a ≤ b ∧ b ≤ n := by
+  simp only [validateSlice] at h
+  split_ifs at h with hc
+  simp only [Except.ok.injEq, Prod.mk.injEq] at h
+  omega
+
+theorem find_mirror_s (l t : Bits) (a b : Nat) (hab : a ≤ b) (hb : b ≤ l.length) (ht : t ≠ []) :
+    find_ .lsb0 l t a b false = find_ .msb0 l.reverse t.reverse a b false := by
+  unfold find_
+  dsimp only
+  rw [msb0Window_eq_s _ _ _ hab hb]
+  simp only [rfindStore, findStore]
+  rw [search_reverse_s l t a b hab hb ht]
+  simp only [Bool.false_eq_true, not_false_eq_true, if_true, List.head?_reverse, List.getLast?_map]
+
+theorem rfind_mirror_s (l t : Bits) (a b : Nat) (hab : a ≤ b) (hb : b ≤ l.length) (ht : t ≠ []) :
+    rfind_ .lsb0 l t a b false = rfind_ .msb0 l.reverse t.reverse a b false := by
+  unfold rfind_
+  dsimp only
+  rw [msb0Window_eq_s _ _ _ hab hb]
+  simp only [rfindStore, findStore]
+  rw [search_reverse_s l t a b hab hb ht]
+  simp only [Bool.false_eq_true, not_false_eq_true, if_true, List.getLast?_reverse, List.head?_map]
+
+theorem find_lsb0_mirror_partial_s (l t : Bits) (start stop : Option Int) :
+    findOp .lsb0 l t start stop false = findOp .msb0 l.reverse t.reverse start stop false := by
+  simp only [findOp, List.length_reverse]
+  split
+  · rfl
+  · rename_i h0
+    have ht : t ≠ [] := by intro h; simp [h] at h0
+    split
+    · rfl
+    · rename_i a b hv
+      have := validateSlice_bounds_s hv
+      exact find_mirror_s l t a b this.1 this.2 ht
+
+theorem rfind_lsb0_mirror_partial_s (l t : Bits) (start stop : Option Int) :
+    rfindOp .lsb0 l t start stop false = rfindOp .msb0 l.reverse t.reverse start stop false := by
+  simp only [rfindOp, List.length_reverse]
+  split
+  · rfl
+  · rename_i a b hv
+    split
+    · rfl
+    · rename_i h0
+      have ht : t ≠ [] := by intro h; simp [h] at h0
+      have := validateSlice_bounds_s hv
+      exact rfind_mirror_s l t a b this.1 this.2 ht
+
+/-! ### findall: drain loops and the chunk scan -/
+
+/-- alignment filter used by `findall` -/
+def alignedB (ba : Bool) (q : Nat) : Bool := !ba || decide (q % 8 = 0)
+
+theorem alignedB_false_s : alignedB false = fun _ => true := by
+  funext q; simp [alignedB]
+
+theorem alignedB_true_s : alignedB true = fun q => decide (q % 8 = 0) := by
+  funext q; simp [alignedB]
+
+theorem search_wholeByte_s (L T : Bits) (a b : Nat) (hT : T ≠ []) (hm : T.length % 8 = 0) :
+    (search L T ((a + 7) / 8 * 8) (b / 8 * 8)).filter (· % 8 = 0) = (search L T a b).filter (· % 8 = 0) := by
+  apply eq_of_sorted_of_mem_iff_s ((search_sorted_s _ _ _ _).filter _) ((search_sorted_s _ _ _ _).filter _)
+  intro p
+  simp only [List.mem_filter, mem_search_iff_s _ _ _ _ _ hT, decide_eq_true_eq]
+  constructor
+  · rintro ⟨⟨h1, h2, h3⟩, h4⟩
+    exact ⟨⟨by omega, by omega, h3⟩, h4⟩
+  · rintro ⟨⟨h1, h2, h3⟩, h4⟩
+    exact ⟨⟨by omega, by omega, h3⟩, h4⟩
+
+theorem findallMsb0Store_eq_s (L T : Bits) (a b : Nat) (ba : Bool) (hT : T ≠ []) :
+    findallMsb0Store L T a b ba = (search L T a b).filter (alignedB ba) := by
+  unfold findallMsb0Store
+  cases ba
+  · simp [alignedB_false_s]
+  · rw [alignedB_true_s]
+    by_cases hm : T.length % 8 = 0
+    · simp only [hm, and_self, if_true]
+      exact search_wholeByte_s L T a b hT hm
+    · simp [hm]
+
+theorem findallMsb0_eq_s (L T : Bits) (a b : Nat) (count : Option Nat) (ba : Bool) (hT : T ≠ []) :
+    findallMsb0 L T a b count ba = match count with
+      | none => (search L T a b).filter (alignedB ba)
+      | some c => ((search L T a b).filter (alignedB ba)).take c := by
+  unfold findallMsb0
+  rw [findallMsb0Store_eq_s L T a b ba hT]
+  cases count <;> rfl
+
+
+theorem alignedB_iff_s (ba : Bool) (q : Nat) : alignedB ba q = true ↔ (¬ ba = true ∨ q % 8 = 0) := by
+  cases ba <;> simp [alignedB]
+
+theorem drainFoundFixed_fst_s (n m : Nat) (count : Option Nat) (ba : Bool) :
+    ∀ (xs : List Nat) (c : Nat), (drainFoundFixed n m count ba xs c).1 =
+      match count with
+      | none => (xs.map fun p => n - p - m).filter (alignedB ba)
+      | some k => ((xs.map fun p => n - p - m).filter (alignedB ba)).take (k - c) := by
+  intro xs
+  induction xs with
+  | nil => intro c; cases count <;> simp [drainFoundFixed]
+  | cons p rest ih =>
+    intro c
+    simp only [drainFoundFixed]
+    simp only [List.map_cons, List.filter_cons, alignedB_iff_s]
+    by_cases hal : (¬ ba = true ∨ (n - p - m) % 8 = 0)
+    · simp only [hal, if_true]
+      cases count with
+      | none => simp only [Bool.false_eq_true, if_false]; rw [ih (c + 1)]
+      | some k =>
+        simp only [ge_iff_le, decide_eq_true_eq]
+        by_cases hk : k ≤ c
+        · simp only [hk, if_true]
+          have : k - c = 0 := by omega
+          rw [this]; rfl
+        · simp only [hk, if_false]
+          rw [ih (c + 1)]
+          have : k - c = (k - (c + 1)) + 1 := by omega
+          simp only [this, List.take_succ_cons]
+    · simp only [hal, if_false]
+      exact ih c
+
+theorem drainFound_fst_s (n m : Nat) (count : Option Nat) (ba : Bool) (h : countAligned count ba = false) :
+    ∀ (xs : List Nat) (c : Nat), (drainFound n m count ba xs c).1 =
+      match count with
+      | none => (xs.map fun p => n - p - m).filter (alignedB ba)
+      | some k => ((xs.map fun p => n - p - m).filter (alignedB ba)).take (k - c) := by
+  intro xs
+  induction xs with
+  | nil => intro c; cases count <;> simp [drainFound]
+  | cons p rest ih =>
+    intro c
+    simp only [drainFound]
+    simp only [List.map_cons, List.filter_cons, alignedB_iff_s]
+    cases count with
+    | none =>
+      simp only [Bool.false_eq_true, if_false]
+      rw [ih (c + 1)]
+    | some k =>
+      have hba : ba = false := by
+        cases ba
+        · rfl
+        · simp [countAligned] at h
+      subst hba
+      simp only [ge_iff_le, decide_eq_true_eq, Bool.false_eq_true, not_false_eq_true, true_or, if_true]
+      by_cases hk : k ≤ c
+      · simp only [hk, if_true]
+        have : k - c = 0 := by omega
+        rw [this]; rfl
+      · simp only [hk, if_false]
+        rw [ih (c + 1)]
+        have : k - c = (k - (c + 1)) + 1 := by omega
+        simp only [this, List.take_succ_cons]
+
+theorem drainFoundFixed_append_s (n m : Nat) (count : Option Nat) (ba : Bool) (ys : List Nat) :
+    ∀ (xs : List Nat) (c : Nat), (drainFoundFixed n m count ba (xs ++ ys) c).1 =
+      if (drainFoundFixed n m count ba xs c).2.2 then (drainFoundFixed n m count ba xs c).1
+      else (drainFoundFixed n m count ba xs c).1 ++
+        (drainFoundFixed n m count ba ys (drainFoundFixed n m count ba xs c).2.1).1 := by
+  intro xs
+  induction xs with
+  | nil => intro c; simp [drainFoundFixed]
+  | cons p rest ih =>
+    intro c
+    simp only [List.cons_append, drainFoundFixed]
+    by_cases hal : (¬ ba = true ∨ (n - p - m) % 8 = 0)
+    · simp only [hal, if_true]
+      cases count with
+      | none =>
+        simp only [Bool.false_eq_true, if_false]
+        rw [ih (c + 1)]
+        split <;> simp
+      | some k =>
+        simp only [ge_iff_le, decide_eq_true_eq]
+        by_cases hk : k ≤ c
+        · simp only [hk, if_true]
+        · simp only [hk, if_false]
+          rw [ih (c + 1)]
+          split <;> simp
+    · simp only [hal, if_false]
+      exact ih c
+
+theorem search_split_s (l t : Bits) (s0 pos hi : Nat) (ht : t ≠ []) (h1 : s0 ≤ pos) (h2 : pos + t.length - 1 ≤ hi) :
+    search l t s0 hi = search l t s0 (pos + t.length - 1) ++ search l t pos hi := by
+  have hm : 1 ≤ t.length := by cases t <;> simp_all
+  apply eq_of_sorted_of_mem_iff_s (search_sorted_s _ _ _ _)
+  · rw [List.pairwise_append]
+    refine ⟨search_sorted_s _ _ _ _, search_sorted_s _ _ _ _, ?_⟩
+    intro x hx y hy
+    rw [mem_search_iff_s _ _ _ _ _ ht] at hx hy
+    omega
+  · intro p
+    simp only [List.mem_append, mem_search_iff_s _ _ _ _ _ ht]
+    constructor
+    · rintro ⟨a1, a2, a3⟩
+      by_cases hp : p < pos
+      · left; exact ⟨a1, by omega, a3⟩
+      · right; exact ⟨by omega, a2, a3⟩
+    · rintro (⟨a1, a2, a3⟩ | ⟨a1, a2, a3⟩)
+      · exact ⟨a1, by omega, a3⟩
+      · exact ⟨by omega, a2, a3⟩
+
+theorem findallMsb0_none_false_s (l t : Bits) (a b : Nat) : findallMsb0 l t a b none false = search l t a b := by
+  simp [findallMsb0, findallMsb0Store]
+
+theorem fixedLoop_eq_s (inc : Nat) (hinc : 1 ≤ inc) (l t : Bits) (ht : t ≠ []) (s0 : Nat) (count : Option Nat) (ba : Bool) :
+    ∀ (fuel hi c : Nat), s0 ≤ hi → hi - s0 < fuel →
+      findallLsb0FixedLoop inc l t s0 count ba fuel hi c
+        = (drainFoundFixed l.length t.length count ba (search l t s0 hi).reverse c).1 := by
+  have hm : 1 ≤ t.length := by cases t <;> simp_all
+  intro fuel
+  induction fuel with
+  | zero => intro hi c _ h; omega
+  | succ fuel ih =>
+    intro hi c hs hf
+    simp only [findallLsb0FixedLoop, findallMsb0_none_false_s]
+    by_cases hpos : max s0 (hi - (inc + t.length)) = s0
+    · simp only [hpos, if_true, ite_self]
+    · simp only [hpos, if_false]
+      have hsplit := search_split_s l t s0 (max s0 (hi - (inc + t.length))) hi ht (by omega) (by omega)
+      rw [ih _ _ (by omega) (by omega)]
+      conv_rhs => rw [hsplit, List.reverse_append, drainFoundFixed_append_s]
+
+theorem findall_fixed_chunks_eq_s (inc : Nat) (hinc : 1 ≤ inc) (l t : Bits) (a b : Nat) (count : Option Nat) (ba : Bool)
+    (hab : a ≤ b) (hb : b ≤ l.length) (ht : t ≠ []) :
+    findallLsb0Fixed inc l t a b count ba = .ok (findallMsb0 l.reverse t.reverse a b count ba) := by
+  have htr : t.reverse ≠ [] := by simpa using ht
+  unfold findallLsb0Fixed
+  rw [msb0Window_eq_s _ _ _ hab hb]
+  dsimp only
+  rw [fixedLoop_eq_s inc hinc l t ht _ count ba _ _ _ (by omega) (by omega), drainFoundFixed_fst_s,
+    findallMsb0_eq_s _ _ _ _ _ _ htr, search_reverse_s l t a b hab hb ht]
+  cases count <;> simp only [List.map_reverse, Nat.sub_zero]
+
+theorem findall_lsb0_chunks_eq_partial_s (inc : Nat) (l t : Bits) (a b : Nat) (count : Option Nat) (ba : Bool)
+    (hab : a ≤ b) (hb : b ≤ l.length) (ht : t ≠ [])
+    (hchunk : multiChunk inc t.length a b = false) (hcount : countAligned count ba = false) :
+    findallLsb0 inc l t a b count ba = .ok (findallMsb0 l.reverse t.reverse a b count ba) := by
+  have htr : t.reverse ≠ [] := by simpa using ht
+  have hc : b - a ≤ inc + t.length := by simpa [multiChunk] using hchunk
+  unfold findallLsb0
+  rw [msb0Window_eq_s _ _ _ hab hb]
+  dsimp only
+  have e1 : min (inc + t.length) (l.length - a - (l.length - b)) = l.length - a - (l.length - b) := by omega
+  have e2 : max (l.length - b) (l.length - a - (l.length - a - (l.length - b))) = l.length - b := by omega
+  have e3 : l.length - b + (l.length - a - (l.length - b)) = l.length - a := by omega
+  rw [e1, e2]
+  have hloop : findallLsb0Loop inc l t (l.length - b) (l.length - a - (l.length - b)) count ba (l.length + 2) (l.length - b) 0
+      = (drainFound l.length t.length count ba (search l t (l.length - b) (l.length - a)).reverse 0).1 := by
+    simp only [findallLsb0Loop, findallMsb0_none_false_s, e3]
+    have e4 : max (l.length - b) (l.length - b - inc) = l.length - b := by omega
+    simp only [e4, if_true, ite_self]
+    split
+    · rename_i h0; rw [h0]; rfl
+    · rfl
+  rw [hloop, drainFound_fst_s _ _ _ _ hcount,
+    findallMsb0_eq_s _ _ _ _ _ _ htr, search_reverse_s l t a b hab hb ht]
+  cases count <;> simp only [List.map_reverse, Nat.sub_zero]
+
+theorem countAligned_map_s {α β} (f : α → β) (count : Option α) (ba : Bool) :
+    countAligned (count.map f) ba = countAligned count ba := by
+  cases count <;> rfl
+
+theorem findall_lsb0_mirror_partial_s (l t : Bits) (start stop : Option Int) (count : Option Int) (ba : Bool)
+    (ht : t ≠ []) (hlen : l.length ≤ 8192) (hcount : countAligned count ba = false) :
+    findallOp .lsb0 l t start stop count ba = findallOp .msb0 l.reverse t.reverse start stop count ba := by
+  simp only [findallOp, List.length_reverse]
+  split
+  · rfl
+  · split
+    · rfl
+    · rename_i a b hv
+      have hv' := validateSlice_bounds_s hv
+      unfold findall_
+      dsimp only
+      apply findall_lsb0_chunks_eq_partial_s _ l t a b _ ba hv'.1 hv'.2 ht
+      · have := hv'.1; have := hv'.2
+        simp only [multiChunk, chunkIncrement, gt_iff_lt, decide_eq_false_iff_not]; omega
+      · rw [countAligned_map_s]; exact hcount
 
 end BM.C12
